@@ -312,18 +312,20 @@ def check(run):
     pool4 = Pool4(os.path.join(run.scratch, 'dir4'), run.seed + 1)
     nmain = 40 if quick else 240
     steps = 2
-    present = ['A', 'B', 'C', 'D']
+    all_present = ['A', 'B', 'C', 'D']
     plans = []
     for k in range(nmain):
         r = np.random.default_rng(run.seed * 1000003 + k)
-        sysfile, _ = pool4.system(('sys_%d.gro' if k % 5 else 'sys.part%04d.eq.gro') % k, present, r, nmol=(int(r.integers(4, 12)) if k % 7 != 3 else len(present)))   # input names with several dots too
+        # every seventh start system is tiny (one or two molecules): smaller than a single end-resolution molecule
+        present = all_present if k % 7 not in (3, 5) else (['A'] if k % 2 == 0 else ['A', 'C'])
+        sysfile, _ = pool4.system(('sys_%d.gro' if k % 5 else 'sys.part%04d.eq.gro') % k, present, r, nmol=(int(r.integers(4, 12)) if k % 7 not in (3, 5) else len(present)))   # input names with several dots too
         pool4.sysfile = sysfile
         auto = k % 2 == 0
-        explicit = [str(s) for s in r.choice(present, int(r.integers(0 if auto else 1, 3)), replace=False)]
+        explicit = [str(s) for s in r.choice(present, min(len(present), int(r.integers(0 if auto else 1, 3))), replace=False)]
         if not auto and k % 4 == 1:
             # two explicit species, the one with a one- or two-bead start molecule first (its exchange map draws random
             # numbers: the order of alignments and map constructions matters for the random stream)
-            explicit = ['D', str(r.choice(['A', 'B', 'C']))]
+            explicit = ['D', str(r.choice(['A', 'B', 'C']))] if len(present) == 4 else list(present[:1])
         cands = []
         if auto:
             for s in present:
